@@ -153,7 +153,16 @@ def parse_fn_blocks(lines, origin):
                 if s.startswith('//@rule'):
                     fs.rules += s.split()[1:]
                     cur = None
-                elif s.startswith('//@sub ') or s.startswith('//@subsig '):
+                elif s.startswith('//@sub ') or s.startswith('//@subsig ') or s.startswith('//@sub? '):
+                    if s.startswith('//@sub? '):
+                        # optional: applied wherever the text occurs, not an error when it does not occur
+                        m = re.match(r'^//@sub\?\s+(\w+)\s+`(.*)`\s*=>\s*`(.*)`\s*$', s)
+                        if not m:
+                            raise AssembleError('%s:%d bad //@sub?' % (origin, i + 1))
+                        fs.subs.append((m.group(1), m.group(2).replace('\\n', '\n'), m.group(3).replace('\\n', '\n'), '?'))
+                        cur = None
+                        i += 1
+                        continue
                     m = re.match(r'^//@(sub|subsig)\s+(\w+)\s+`(.*)`\s*=>\s*`(.*)`\s*(\*|\d+|last)?\s*$', s)
                     if not m:
                         raise AssembleError('%s:%d bad //@sub' % (origin, i + 1))
@@ -960,6 +969,11 @@ def expand_fn(fs, assumed_override=False, notes=None):
             body = rule_Rcomb(body, cm, ck, cn, deltas, where)
         for (rule, frm, to, cnt) in fs.subs:
             k = body.count(frm)
+            if cnt == '?':
+                if k:
+                    body = body.replace(frm, to)
+                    deltas.append(dict(rule=rule, original=frm, rewritten=to, times=k))
+                continue
             if cnt == 'last' and k >= 1:
                 idx = body.rfind(frm)
                 body = body[:idx] + to + body[idx + len(frm):]
